@@ -40,7 +40,7 @@ pub fn defs() -> Vec<PropDef> {
             }
             Ok(())
         },
-        rule: "(a) fd monitor over a sweep of decode/encode/hide/reveal/Display calls; (b1) HIST: every call history over a 12-call alphabet up to depth 3 (quick) / 4 (thorough) walked on the main thread and on a reused worker thread, each result compared with the same call made first in a pristine process, histories up to depth 2 (3) additionally each in its own fresh process; (b2) the message/AVP-list wire sweep as one long history, plain and disturbed; (c) SCHED: loom, all unordered pairs of the call alphabet on two threads (thorough: also selected triples on three), scheduling point at every Reader/Writer trait call, preemption bound 2 (quick) / 3 (thorough); (c2) the same pairs against a copy of the tree in which std::sync primitives are replaced by instrumented ones, adding a scheduling point at every lock / unlock / atomic operation of the library (best effort: skipped when that copy does not build); (d) 16 free-running OS threads. states = choice-tree nodes + history prefixes + loom schedules; distinct non-trivial = distinct call histories with at least two calls + distinct schedules explored by loom (loom does not repeat a schedule) + distinct wire cases of the long history.",
+        rule: "(a) fd monitor over a sweep of decode/encode/hide/reveal/Display calls; (b1) HIST: every call history over a 12-call alphabet up to depth 3 (quick) / 4 (thorough) walked on the main thread and on a reused worker thread, each result compared with the same call made first in a pristine process, histories up to depth 2 (3) additionally each in its own fresh process; (b2) the message/AVP-list wire sweep as one long history, plain and disturbed; (c) SCHED: loom, all unordered pairs of the call alphabet on two threads (thorough: also selected triples on three), scheduling point at every Reader/Writer trait call, preemption bound 2 (quick) / 3 (thorough); (c2) the same pairs against a copy of the tree in which std::sync primitives are replaced by instrumented ones, adding a scheduling point at every lock / unlock / atomic operation of the library (best effort: skipped when that copy does not build); (d) 16 free-running OS threads; (e) every call and the whole sweep in pristine processes under an LD_PRELOAD shim that logs getenv / clock / getrandom / getcwd / socket / open calls (none may occur). states = choice-tree nodes + history prefixes + loom schedules; distinct non-trivial = distinct call histories with at least two calls + distinct schedules explored by loom (loom does not repeat a schedule) + distinct wire cases of the long history.",
         bounds: |t| json!({"call_alphabet": 12, "history_depth": if t.thorough() {4} else {3}, "fresh_process_depth": if t.thorough() {3} else {2}, "loom": {"threads": if t.thorough() {"2 and 3"} else {"2"}, "preemption_bound": if t.thorough() {3} else {2}, "scheduling_points": "every Reader/Writer trait call made by the library (hide/reveal have none)"}, "free_running_threads": 16}),
         assumptions: &[
             "loom only sees thread switches at the seams (Reader/Writer calls); shared state read-modified-written entirely between two seams, or inside hide/reveal which use no caller-supplied reader or writer, is invisible to (c) and is covered only by (b) and (d)",
@@ -384,6 +384,12 @@ fn instrumented_sync(ctx: &mut Ctx, bound: usize) {
 /// `vh c19call i,j,k` — run a history in this (fresh) process and print one digest per line.
 pub fn call_main(arg: &str) -> i32 {
     crate::ctx::install_panic_hook();
+    if arg == "sweep" {
+        // the silence sweep in a process of its own (used under the environment-access shim)
+        let mut c = Ctx::new("C19", crate::ctx::Tier::Quick, 0, 1);
+        silence_sweep(&mut c);
+        return 0;
+    }
     for part in arg.split(',') {
         let i: usize = part.parse().unwrap_or(0);
         println!("{}", call(i % N_CALLS, &NoTick));
@@ -833,6 +839,10 @@ fn run_c19(ctx: &mut Ctx) {
     if ctx.shard == 1 % ctx.nshards {
         instrumented_sync(ctx, bound);
     }
+    // (e) environment access: the library must not consult the process environment
+    if ctx.shard == 2 % ctx.nshards {
+        environment_access(ctx);
+    }
     // (d) free-running complement
     if ctx.shard == 0 {
         let (n, bad) = free_running(&base, 1500);
@@ -843,6 +853,63 @@ fn run_c19(ctx: &mut Ctx) {
         ctx.guard("free-running");
     }
     ctx.samples.push(hist_json(&[1, 2, 0], "in-process"));
+}
+
+/// (e) Run every call of the alphabet, and the whole silence sweep, each in a pristine process
+/// under an LD_PRELOAD shim that logs getenv / clock / getrandom / getcwd / socket / open calls.
+/// On the unchanged tree such a process touches none of these (measured), so anything logged
+/// comes from the code under test: its result could depend on more than its arguments.
+fn environment_access(ctx: &mut Ctx) {
+    let shim = "/verif/harness/target/envshim.so";
+    if !std::path::Path::new(shim).exists() {
+        ctx.extra.insert("environment_access_monitor".into(), json!("unavailable: the LD_PRELOAD shim was not built (no C compiler?)"));
+        return;
+    }
+    let Ok(exe) = std::env::current_exe() else { return };
+    let mut runs = 0u64;
+    let mut args: Vec<String> = (0..N_CALLS).map(|i| i.to_string()).collect();
+    args.push((0..N_CALLS).map(|i| i.to_string()).collect::<Vec<_>>().join(","));
+    if !cfg!(debug_assertions) {
+        // the long sweep once (release profile): environment access does not depend on the profile
+        args.push("sweep".into());
+    }
+    for a in args {
+        let log = format!("/verif/scratch/c19-env-{}-{}.log", std::process::id(), runs);
+        let _ = std::fs::remove_file(&log);
+        let out = std::process::Command::new(&exe).arg("c19call").arg(&a).env("LD_PRELOAD", shim).env("VH_ENVLOG", &log).stdin(std::process::Stdio::null()).output();
+        runs += 1;
+        if out.is_err() {
+            continue;
+        }
+        let text = std::fs::read_to_string(&log).unwrap_or_default();
+        let _ = std::fs::remove_file(&log);
+        let mut seen: std::collections::BTreeSet<String> = std::collections::BTreeSet::new();
+        for line in text.lines() {
+            // the Rust runtime may look at RUST_* variables (backtrace settings) when something panics
+            if line.starts_with("getenv RUST_") {
+                continue;
+            }
+            // the sweep process builds a harness context (a HashSet, hence one getrandom call)
+            if a == "sweep" && line == "random getrandom" {
+                continue;
+            }
+            seen.insert(line.to_string());
+        }
+        for what in seen {
+            let kind = what.split(' ').next().unwrap_or("").to_string();
+            ctx.violation(
+                format!("C19 environment-access {}", if kind == "getenv" { what.clone() } else { kind }),
+                format!("a process that only makes library calls ({}) touched the process environment: {what}", if a.len() < 12 { format!("call {a}") } else { a.clone() }),
+                1,
+                || json!({"kind":"environment","calls":a}),
+            );
+        }
+    }
+    ctx.executions += runs;
+    ctx.states += runs;
+    ctx.transitions += runs;
+    ctx.guard("environment-monitor");
+    ctx.extra.insert("environment_access_monitor".into(), json!({"processes": runs, "intercepted": ["getenv", "secure_getenv", "clock_gettime", "time", "gettimeofday", "getrandom", "getcwd", "socket", "open", "openat"]}));
 }
 
 /// 16 OS threads making the calls of the alphabet concurrently for `millis` ms (decode-heavy mix:
@@ -947,6 +1014,9 @@ fn replay_c19(ctx: &mut Ctx, v: &Value) {
                 }
             }
             let _ = std::fs::remove_file(&inputs);
+        }
+        Some("environment") => {
+            environment_access(ctx);
         }
         Some("free-running") => {
             // timing-dependent: try for up to 20 s
